@@ -35,7 +35,7 @@ def oracle_cases(tier, rng):
         for colour in (0, 1):
             for bias in (0.0, 1e-2, 0.5) + ((10.0,) if tier == 'thorough' else ()):
                 for kind in ('gauss', 'zero', 'spike'):
-                    for hw in [(8, 8), (16, 12), (6, 10)]:
+                    for hw in [(8, 8), (16, 12), (6, 10), (7, 9), (15, 16)]:
                         yield dict(layer=1, check='ref', biort=b, qshift=q, colour=colour, bias=bias, kind=kind, H=hw[0], W=hw[1], seed=int(rng.integers(1 << 30)))
                     for hw in [(8, 8), (16, 24)]:
                         if b in ('near_sym_a', 'near_sym_b_bp'):
